@@ -19,6 +19,10 @@ type History struct {
 	Msgs  []script.CMsg `json:"msgs"`
 	Segs  []int         `json:"segs,omitempty"`
 	Cycle bool          `json:"cycle,omitempty"`
+	// Carry[i] > 0: the first Carry[i] bytes of message i+1 (never the whole message) are sent in the
+	// same write as message i. The reply to message i must still be there at quiescence: a reply is
+	// delivered without waiting for further client input.
+	Carry []int `json:"carry,omitempty"`
 }
 
 // Outcome of playing a history.
@@ -80,10 +84,24 @@ func Run(h History, opt Options) *Outcome {
 	}
 	md := model.New(h.Cfg.Table)
 	md.NoParse = h.Cfg.NoParse
+	var sentAhead int // bytes of the current message that were already sent with the previous one
 	for i, msg := range h.Msgs {
 		before := len(env.Trace())
 		exp, evs := md.Step(msg)
-		step := s.Send(msg.Bytes())
+		out := msg.Bytes()[sentAhead:]
+		sentAhead = 0
+		if i < len(h.Carry) && h.Carry[i] > 0 && i+1 < len(h.Msgs) && !md.Closed {
+			next := h.Msgs[i+1].Bytes()
+			k := h.Carry[i]
+			if k >= len(next) {
+				k = len(next) - 1
+			}
+			if k > 0 {
+				out = append(append([]byte{}, out...), next[:k]...)
+				sentAhead = k
+			}
+		}
+		step := s.Send(out)
 		o.Transcript = append(o.Transcript, pgwire.Briefs(step.Msgs))
 		o.Replies = append(o.Replies, step.Msgs)
 		o.Expected = append(o.Expected, exp)
